@@ -1,7 +1,8 @@
 (* C02 -- compressed (RV32C) instructions encode exactly as specified, one-to-one.  Statements only.
    `encode` calls the GENERATED INSTRUCTIONS dictionary; decode16 / denote16 / operands16 / legal16 are the Spec. *)
 From Coq Require Import ZArith List String.
-From BB Require Import Base.PyBase Gen.Encoders Spec.RVC Spec.Operands Spec.Legal Model.Encode Proofs.C02Main.
+From BB Require Import Base.PyBase Gen.Encoders Spec.RVC Spec.Operands Spec.Legal Model.Encode Proofs.C02Main Model.Items Model.Parser Model.Passes Proofs.EndToEnd.
+Import ListNotations.
 Import ListNotations.
 Open Scope Z_scope.
 
@@ -30,3 +31,26 @@ Theorem C02_injective :
     exists ops, operands16 name p1 = Some ops /\ operands16 name p2 = Some ops.
 Proof. exact injective16. Qed.
 Print Assumptions C02_injective.
+
+(* From the SOURCE LINE: an explicitly written compressed instruction with two registers (c.mv, c.add, c.sub, c.xor, c.or, c.and)
+   or a register and a literal immediate (c.addi, c.li, c.lui, c.slli ..) is parsed (parser model) to an item that the 16 passes of
+   the pass model turn into exactly the two little-endian bytes of the halfword the generated encoder returns -- which, by
+   C02_forward, is a legal RV32C encoding of the named operation. *)
+Theorem C02_line_end_to_end :
+  forall l name toks it args h,
+  (exists a b, In name EndToEnd.cr_names /\ String.eqb a "=" = false /\ toks = [name; a; b] /\ args = [AStr a; AStr b] /\
+               it = Items.IInstr "CRTypeInstruction" name [("rd_rs1", Parser.R a); ("rs2", Parser.R b)]%string true) \/
+  (exists a b, In name EndToEnd.ca_names /\ String.eqb a "=" = false /\ toks = [name; a; b] /\ args = [AStr a; AStr b] /\
+               it = Items.IInstr "CATypeInstruction" name [("rd_rs1", Parser.R a); ("rs2", Parser.R b)]%string true) \/
+  (exists a tok v, In name EndToEnd.ci_names /\ String.eqb a "=" = false /\
+               Parser.parse_immediate [tok] l = Parser.FOk (Items.EArith (Items.ANum v)) /\
+               toks = [name; a; tok] /\ args = [AStr a; AInt v] /\
+               it = Items.IInstr "CITypeInstruction" name [("rd_rs1", Parser.R a); ("imm", Items.FExpr (Items.EArith (Items.ANum v)))]%string true) ->
+  In name c_mnemonics -> encode name args nil = Ok h ->
+  exists ops c,
+    Parser.parse_item l toks = Parser.FOk it /\
+    Passes.assemble_items ((l, it) :: nil) nil nil false =
+      Passes.Done {| Passes.r_chunks := (l, Passes.CBytes (Passes.le_bytes 2 h)) :: nil; Passes.r_consts := nil; Passes.r_labels := nil |} /\
+    0 <= h < 2 ^ 16 /\ operands16 name args = Some ops /\ legal16 name ops = true /\ denote16 name ops = Some c /\ decode16 h = Some c.
+Proof. exact EndToEnd.c_line_end_to_end. Qed.
+Print Assumptions C02_line_end_to_end.
